@@ -46,12 +46,25 @@ impl Engine for HbE2e {
                 };
                 let options = ConnectionOptions::<Auth>::default().heartbeat(ch).connection_timeout(conn_timeout.map(Duration::from_millis));
                 let t_open = Instant::now();
-                let conn = match Connection::insecure_open_stream(stream, options, ConnectionTuning::default()) {
-                    Ok(c) => c,
-                    Err(e) => {
+                // the open runs on a helper thread: an attempt that never returns is an observation
+                let (otx, orx) = std::sync::mpsc::channel();
+                std::thread::spawn(move || {
+                    let _ = otx.send(Connection::insecure_open_stream(stream, options, ConnectionTuning::default()));
+                });
+                let conn = match orx.recv_timeout(Duration::from_secs(8)) {
+                    Ok(Ok(c)) => c,
+                    Ok(Err(e)) => {
+                        // heartbeat frames the client sent during the attempt
+                        let (_h, frames, _r) = split_written(&peer.written());
+                        let hb = frames.iter().filter(|(ft, _, _)| *ft == 8).count();
                         stop.store(true, Ordering::SeqCst);
                         let _ = bt.join();
-                        return out.push(format!("open err {}", err_token(&e)));
+                        out.push(format!("open err {} after-ms={} heartbeats-sent={}", err_token(&e), t_open.elapsed().as_millis(), hb));
+                        return;
+                    }
+                    Err(_) => {
+                        stop.store(true, Ordering::SeqCst);
+                        return out.push("open hung".into());
                     }
                 };
                 let opened_at = Instant::now();
@@ -60,6 +73,11 @@ impl Engine for HbE2e {
                 let mut last_server_send = Instant::now();
                 if *mode == "silent" {
                     silent.store(true, Ordering::SeqCst);
+                }
+                if *mode == "stall-io" {
+                    // the I/O thread's next write (its first heartbeat) stalls for 2.3 intervals while the
+                    // server keeps sending: when it resumes, one poll batch holds the socket AND the rx timer
+                    peer.park_next_write(u64::from(sh.min(ch).max(1)) * 2300);
                 }
                 let deadline = opened_at + Duration::from_millis(if *mode == "slowclose" { 0 } else { observe });
                 let mut death: Option<Instant> = None;
@@ -75,7 +93,7 @@ impl Engine for HbE2e {
                         last_server_send = Instant::now();
                         next_beat += Duration::from_millis((u64::from(sh.min(ch).max(1)) * 400) as u64);
                     }
-                    if *mode == "chatty" && Instant::now() >= next_beat {
+                    if (*mode == "chatty" || *mode == "stall-io") && Instant::now() >= next_beat {
                         peer.push(&broker::heartbeat());
                         last_server_send = Instant::now();
                         next_beat += Duration::from_millis((u64::from(sh.min(ch).max(1)) * 900) as u64);
